@@ -182,6 +182,48 @@ func (s *script) mtuShrink() bool {
 	return s.snapObs("EWrite []", "RCount 0")
 }
 
+// mtuRecovery: loss recovery meets a path-MTU reduction.  A flight of full-sized segments, three
+// duplicate ACKs (fast retransmit of the head, recovery entered), then the path MTU drops below
+// the segment size (the head is re-split and resent), then ACKs that end exactly at the pieces'
+// boundaries: every partial ACK makes the sender retransmit the new head through resendSegment,
+// which must not be larger than the new maximum payload.
+func (s *script) mtuRecovery() bool {
+	st := s.c.Snap()
+	mp := st.MaxPayload
+	if mp < 12 || s.c.Cfg.V6 {
+		return true
+	}
+	if !s.writeN(mp*(3+s.r.Intn(4)) + s.r.Intn(mp)) {
+		return false
+	}
+	if !s.dupAcks(3) {
+		return false
+	}
+	st = s.c.Snap()
+	// usually less than half of the old size, so that remainders and untouched old segments
+	// are larger than the new maximum
+	hi := mp + 40
+	if s.r.Intn(4) != 0 {
+		hi = mp/2 + 40
+	}
+	if hi <= 69 {
+		hi = 70
+	}
+	m := 68 + s.r.Intn(hi-68)
+	if !s.c.InjectFragNeeded(uint16(m), st.SndUna) {
+		return true
+	}
+	if !s.snapObs("EWrite []", "RCount 0") {
+		return false
+	}
+	for i := 0; i < 4+s.r.Intn(5); i++ {
+		if !s.pureAck(5) { // acknowledge exactly the first outstanding piece
+			return false
+		}
+	}
+	return true
+}
+
 // oooBurst queues k consecutive segments AHEAD of the next expected byte (in random order, so the
 // pending heap really reorders), then fills the gap: the drain of the out-of-order queue has to
 // deliver all of them at once.  With the peer's sequence numbers placed so that the burst straddles
@@ -316,6 +358,10 @@ func (s *script) write() bool {
 	if s.mix != "c04" && s.mix != "c05" && s.mix != "c02" && n > 6*s.mss {
 		n = 2*s.mss + 3
 	}
+	return s.writeN(n)
+}
+
+func (s *script) writeN(n int) bool {
 	b := make([]byte, n)
 	for i := range b {
 		b[i] = tcpx.WPat(s.wTotal + i)
@@ -549,6 +595,10 @@ func runScript(seed uint64, idx int, mix string, nev int, kinds map[string]int, 
 	if r.Intn(10) == 0 {
 		cfg.PeerMSS = msss[4+r.Intn(2)]
 	}
+	if mtuEvents && r.Intn(2) == 0 {
+		// room for a real path-MTU reduction (the IPv4 minimum MTU of 68 leaves 28 bytes of payload)
+		cfg.PeerMSS = []int{100, 200, 536}[r.Intn(3)]
+	}
 	if r.Intn(3) == 0 {
 		cfg.PeerWS = r.Intn(4)
 	}
@@ -673,7 +723,11 @@ func runScript(seed uint64, idx int, mix string, nev int, kinds map[string]int, 
 		nev = 26 // these traces carry 64+ KiB of queued data in every snapshot
 	}
 	alive := true
-	if s.burstK > 0 {
+	if mtuEvents && r.Intn(3) == 0 {
+		s.count("mtu-recovery-scenario")
+		alive = s.mtuRecovery()
+	}
+	if alive && s.burstK > 0 {
 		s.count("peer-ooo-burst-straddling")
 		alive = s.oooBurst(s.burstG, s.burstK)
 	}
